@@ -266,10 +266,9 @@ def _align_columns(formatted_cols, header_rows, col_dtypes):
 def _footer(pv, dtype_list=None, truncated=False, shown=MAX_HEAD_COLS) -> str:
 	"""Generate footer line based on shape and dtypes."""
 	shape = pv.shape
-	if not shape:
-		return "# empty"
 	
-	if len(shape) == 1:
+	# An empty vector reports the shape (): it is still a vector of 0 elements with a dtype
+	if len(shape) <= 1:
 		if pv._dtype:
 			dt = pv._dtype.kind.__name__
 			if pv._dtype.nullable:
@@ -414,7 +413,8 @@ def _repr_table(tbl) -> str:
 def _printr(pv) -> str:
 	"""Entry point used by Vector.__repr__ and Table.__repr__."""
 	nd = len(pv.shape)
-	if nd == 1:
+	if nd <= 1:
+		# nd == 0: an empty vector (its shape is ()); shown like any other vector
 		return _repr_vector(pv)
 	if nd == 2:
 		return _repr_table(pv)
